@@ -121,7 +121,8 @@ func propSpecs() map[string]*PropSpec {
 						return x.K == "struct" || x.K == "ptr" || (x.K == "basic" && strings.HasPrefix(x.Name, "complex"))
 					})
 				}
-				if !simple(in.T.Key) || !simple(in.T.Elem) || in.T.Elem.K == "array" {
+				complexKey := in.T.Key.K == "basic" && strings.HasPrefix(in.T.Key.Name, "complex")
+				if !(simple(in.T.Key) || complexKey) || !simple(in.T.Elem) || in.T.Elem.K == "array" {
 					return false
 				}
 			}
@@ -250,6 +251,17 @@ func propSpecs() map[string]*PropSpec {
 	caseSpec("C16", "Error-propagating helpers stop at, and return, the first error", c16CaseInsts, []string{"chains longer than 4 stages", "interface-typed results"})
 	caseSpec("C17", "Fmap and Join over slices and strings", c17CaseInsts, []string{"strings longer than 4 bytes", "lists longer than the bound"})
 	defer func() { m["C18"].AbstractMul = true; m["C14"].AbstractMul = true }()
+	defer func() {
+		// C17: Join over three inner lists of up to three elements compares up to nine output elements
+		m["C17"].Bounds = func(tier string) Bounds {
+			b := DefaultBounds
+			b.Unwind = 10
+			if tier == "thorough" {
+				b.Unwind = 12
+			}
+			return b
+		}
+	}()
 	caseSpec("C18", "Mem is observationally the original function, evaluated once per argument", c18CaseInsts, []string{"call sequences longer than 3", "float arguments (== identifies +0/-0 which f may distinguish)"})
 	return m
 }
